@@ -19,6 +19,16 @@ CHECKS.update({
         text="Exploration. Generated histories of quad add/remove/pattern remove/remove-from-all/addN/graph()/remove_graph over five graph names (default, IRIs, a bnode, an IRI colliding with the bnode label) run on Dataset(default_union off/on) and ConjunctiveGraph; after every operation quads(), graphs(), three kinds of per-graph view, quad membership, reads restricted to existing/empty/unknown graphs and the merged view are compared with a name->set model; all short histories are enumerated. One listed finding (restricted quads() repeats a shared triple per graph) is carved out exactly.",
         note="Trusted: the model, term keys. Existence of graphs emptied by triple removal is not judged. Memory store only.",
         ref="DESIGN.md §3 C02"),
+    "C03": dict(
+        technique="runtime monitoring: serialise->parse round trip on generated graphs judged by an independent isomorphism search; sys.monitoring step budget for termination",
+        text="Exploration. Generated graphs (IRIs with odd local names and non-ASCII, bnode trees/cycles/self-loops/unreferenced and multiply-referenced nodes, well-formed, shared-tail, extra-property, cyclic, ring-shaped and malformed rdf:List structures, literals over every recognised datatype, language tags, arbitrary Unicode, falsy values) are serialised with each of the 8 serializers under option combinations (base, bind_namespaces, user prefixes on nested namespaces) and parsed back; rv.iso (own bijection search, own literal key) must find the result isomorphic; serialisation must finish within a logical step budget and must not change the graph. Nine listed findings (Turtle decimal/double shorthand, several pretty-xml losses, JSON-LD unrooted cycles and malformed lists) are carved out by input predicates and replayed on every run.",
+        note="RDF/XML family restricted to what XML 1.0 can express (predicates splitting into namespace+NCName, XML Char text). Literals come from the normalising constructor. HexTuples: plain == xsd:string only.",
+        ref="DESIGN.md §3 C03"),
+    "C14": dict(
+        technique="runtime monitoring: differential of rdflib.compare against an independent refinement+backtracking bijection search on generated (graph, perturbed copy) pairs",
+        text="Exploration. Pairs (G, H) where H is a relabelled/shuffled copy of G, optionally with one edge rewired, reversed, re-predicated, dropped or a ground triple changed; G from random bnode graphs and from symmetric families where colour refinement cannot split cells (cycles, K_mn, disjoint identical components, circulants, Petersen, hypercubes, C6 vs 2xC3). isomorphic(), to_isomorphic equality, equality of canonical graphs, the three graph_diff parts and the skolemise/de-skolemise round trip are compared with the oracle's answer. rdflib's search runs under a per-case wall watchdog; timeouts are counted as skipped.",
+        note="rv.iso is self-tested against brute force at setup; cases exceeding its budget are skipped and counted.",
+        ref="DESIGN.md §3 C14"),
     "C07": dict(
         technique="runtime monitoring: algebraic laws (equivalence, hash coherence, kind order, string order, sort, pickle/copy, n3 read-back) evaluated over generated near-equal term pairs and collections",
         text="Exploration. Hundreds of thousands of generated pairs/triples of terms (60% near-equal: same string in another kind, language tags differing in case, other lexical form of one value, xsd:string vs plain) are checked against the laws themselves: == is reflexive/symmetric/transitive and agrees with the framework's own (kind, lexical, datatype, lower(lang)) key, equal terms hash alike and collapse in sets, dict keys and a Graph, cross-kind order is bnode<variable<IRI<literal, IRIs/bnodes order as strings, sorted() of mixed collections never raises and is reproducible over permutations; every term survives copy, deepcopy, pickle (all protocols) and NodePickler unchanged, and its n3() text is read back as the same term by from_n3, the Turtle parser and the SPARQL parser.",
